@@ -27,14 +27,40 @@ def plant_conflict(spec, rng):
         mand = [tasks[0]]
     hz = gen.est_horizon(spec)
     t = rng.choice(mand)
-    kind = rng.choice(["two_starts", "window", "cycle", "beyond_horizon", "force", "sync_vs_order"])
+    kind = rng.choice(["two_starts", "window", "cycle", "beyond_horizon", "force", "sync_vs_order", "unavailable_all", "workload_zero", "contiguous_vs_gap",
+                       "unavailable_all", "workload_zero"])
+    # constraints that carry several assertions (one per busy interval / per interval) - the
+    # conflict then does not go through a particular one of them
+    busy = {}
+    for a in spec.get("assign", []):
+        if a["resource"].startswith("w") and not a.get("dynamic"):
+            tk = next(x for x in tasks if x["id"] == a["task"])
+            if not tk.get("optional") and (tk.get("duration") or tk.get("min")):
+                busy.setdefault(a["resource"], []).append(tk)
+    if kind in ("unavailable_all", "workload_zero") and not busy:
+        kind = "two_starts"
+    if kind == "contiguous_vs_gap" and len([x for x in mand if x.get("duration") or x.get("min")]) < 2:
+        kind = "window"
     ids = []
 
     def add(c):
         c["id"] = f"k{len(ids)+1}"
         spec["constraints"].append(c)
         ids.append(c["id"])
-    if kind == "two_starts":
+    if kind == "unavailable_all":
+        w = rng.choice(sorted(busy))
+        m = rng.randint(1, max(1, hz - 1))
+        add({"kind": "ResourceUnavailable", "resource": w, "intervals": [[0, m], [m, hz + 6]]})
+    elif kind == "workload_zero":
+        w = rng.choice(sorted(busy))
+        m = rng.randint(1, max(1, hz - 1))
+        add({"kind": "WorkLoad", "resource": w, "intervals": [[0, m, 0], [m, hz + 6, 0]], "mode": rng.choice(["max", "exact"])})
+    elif kind == "contiguous_vs_gap":
+        a, b = rng.sample([x for x in mand if x.get("duration") or x.get("min")], 2)
+        add({"kind": "TasksContiguous", "tasks": [a["id"], b["id"]]})
+        add({"kind": "TaskPrecedence", "before": a["id"], "after": b["id"], "offset": rng.randint(1, 2), "mode": "tight"})
+        add({"kind": "TaskPrecedence", "before": a["id"], "after": b["id"], "offset": 0, "mode": "lax"})
+    elif kind == "two_starts":
         a = rng.randint(0, max(0, hz - 2))
         add({"kind": "TaskStartAt", "task": t["id"], "value": a})
         add({"kind": "TaskStartAt", "task": t["id"], "value": a + rng.randint(1, 2)})
